@@ -390,6 +390,14 @@ def bounded(b):
             ok, ra = b.guard("score_rest_array/no_exception", case, lambda: pt.utils.music.rest_array_from_part_list(pl))
             if ok:
                 b.case("score_rest_array/no_rests_no_rows", len(ra) == len(notefree), case, "rest array has %d rows for %d rests" % (len(ra), len(notefree)))
+                want_ids = sorted("P%02d_r%d" % (i, i) for i in notefree)
+                b.case("score_rest_array/ids_carry_the_position_of_their_part", sorted(str(x) for x in ra["id"]) == want_ids, case,
+                       "rest ids %r, the rests belong to the parts at positions %r: %r" % (sorted(str(x) for x in ra["id"]), notefree, want_ids))
+            # the dispatcher hands the id option on as it was given (False included)
+            ok, na3 = b.guard("score_array/no_exception", dict(case, via="ensure_notearray"), lambda: pt.utils.music.ensure_notearray(score, unique_id_per_part=uid))
+            if ok:
+                b.case("score_array/list_of_parts_same_as_score", sorted(str(r["id"]) for r in na3) == sorted(w[3] for w in want), dict(case, via="ensure_notearray"),
+                       "ids from ensure_notearray(score, unique_id_per_part=%r): %r, expected %r" % (uid, sorted(str(r["id"]) for r in na3)[:4], sorted(w[3] for w in want)[:4]))
     # inverse direction
     from partitura.musicanalysis.note_array_to_score import note_array_to_score
     base = [(0.0, 1.0, 0, 4, 60), (1.0, 0.5, 4, 2, 62), (1.5, 0.5, 6, 2, 64), (2.0, 2.0, 8, 8, 67), (2.0, 1.0, 8, 4, 72)]
